@@ -342,6 +342,22 @@ def loops_in(toks, m, lo, hi):
         i += 1
     return res
 
+# R16b: a loop BODY extracted as a function of its own: a `continue` of that (outer) loop ends this iteration, i.e. returns from the function
+def r16_continue_returns(toks, stats, value):
+    m = match_table(toks)
+    inner = [(o, c) for (_, o, c) in loops_in(toks, m, 0, len(toks))]
+    out = []
+    i = 0
+    while i < len(toks):
+        t = toks[i]
+        if t.k == "id" and t.s == "continue" and not any(o < i < c for o, c in inner):
+            out += T("return " + value)
+            stats["R16b.continue_returns"] = stats.get("R16b.continue_returns", 0) + 1
+        else:
+            out.append(t)
+        i += 1
+    return out
+
 # ------------------------------------------------------------------------------------------------
 # R2: logging
 # ------------------------------------------------------------------------------------------------
@@ -772,6 +788,11 @@ def r10_option_unfold(toks, stats, which=("map_or", "map", "map_or_else")):
                 if len(ps) != 1: raise ExtractError("R10: map_or closure arity")
                 arm = T("Some(") + ps[0] + T(") =>") + [Tok("o", "{", None, 0, True)] + body + [Tok("c", "}", None, 0, True)] + T(",")
             new = T("(match") + recv + T("{") + arm + T("None =>") + d + T("})")
+        elif name == "and_then":
+            # E.and_then(|x| B) -> (match E { Some(x) => { B }, None => None })
+            cf = closure_parts(args[0]) if len(args) == 1 else None
+            if cf is None or len(cf[0]) != 1: raise ExtractError("R10: Option::and_then needs a one-parameter closure literal")
+            new = T("(match") + recv + T("{ Some(") + cf[0][0] + T(") =>") + [Tok("o", "{", None, 0, True)] + cf[1] + [Tok("c", "}", None, 0, True)] + T(", None => None })")
         elif name == "unwrap_or_else":
             # E.unwrap_or_else(|| B) -> (match E { Some(vx_o) => vx_o, None => { B } })
             cd = closure_parts(args[0]) if len(args) == 1 else None
